@@ -550,6 +550,12 @@ pub fn f5() -> Fragment {
                 ]));
             }
         }
+        // a parameter name written twice, applied to arguments of different kinds (which
+        // parameter a use denotes is not defined, but the checker and the evaluator must agree)
+        for (a1, a2) in [(obj(vec![prop("o", num())]), E::Num(404)), (E::Num(404), obj(vec![prop("o", num())])), (num(), str_())] {
+            extra.push(single(vec![fun("pick", &["x", "x"], var("x")), get(content(app("pick", vec![a1.clone(), a2.clone()])))]));
+            extra.push(single(vec![fun("pick", &["x", "x"], obj(vec![prop("v", var("x"))])), get(content(app("pick", vec![a1, a2])))]));
+        }
         // the built-in function, used directly and through declarations
         extra.push(single(vec![
             let_("base", uri_lit(&["api"])),
